@@ -301,6 +301,17 @@ pub fn resolve_type<'n>(node_type: &'n str, doc: &RustDocument) -> (&'n str, Opt
 pub fn as_rust_type(node_type: &str, doc: &RustDocument) -> RustFieldType {
     let (node_type, namespace) = split_type(node_type);
 
+    // a prefix that is bound to one of the schemas' own namespaces names a type of that schema,
+    // also when the type is called like a builtin (`tns:time`, `tns:language`); the prefix of the
+    // XML Schema namespace itself is not among them
+    let user_module = namespace.and_then(|ns| doc.find_module_name_from_namespace_reference(ns));
+    if let Some(module) = user_module {
+        return RustFieldType::Other(OtherRustType {
+            name: as_type_name(node_type),
+            module: Some(module.to_string()),
+        });
+    }
+
     match node_type {
         "byte" => RustFieldType::I8,
         "string" | "normalizedString" | "base64Binary" | "hexBinary" | "anyURI" | "date" | "dateTime" | "time"
